@@ -7,6 +7,7 @@ CONSTANTS
   Places = {"global"}
   Derive = FALSE
   Pair = TRUE
+  Threads = FALSE
   Defects = {"shared_stack"}
   EmitCases = TRUE
 INVARIANTS TypeOK Emit
